@@ -259,6 +259,8 @@ def run(ctx):
     for key, lst in sorted(agg.items()):
         ctx.violation(key, "%s  [%d target(s), e.g. %s]" % (lst[0][1][:400], len(lst), lst[0][0]),
                       {"targets": [x for x, _, _ in lst][:40], "text": lst[0][2]})
+    if not ctx.samples:
+        ctx.samples = [{"text": n, "target": "%s/abi%s/apparmor%s" % (d, a, v)} for d in ("arch", "opensuse") for (n, t, a, v, c) in per_dist[d][:2]]
     ctx.extra["shipped_files"] = len(files)
     ctx.extra["targets"] = len(TARGETS)
     ctx.extra["tap_texts"] = len(tap_cases)
